@@ -189,6 +189,9 @@ var relayoutTails = [][]byte{
 }
 
 func relayout(data []byte) []byte {
+	if concMode {
+		return data // the goroutines of the concurrent driver share their input bytes (laid out by the driver)
+	}
 	h := uint32(2166136261)
 	for _, b := range data {
 		h = (h ^ uint32(b)) * 16777619
